@@ -1391,10 +1391,11 @@ class TermCanvas(Canvas):
             1 -> erase from start to cursor.
             2 -> erase the whole display.
         """
+        # erase in display is not limited by the scrolling margins (origin mode)
         if mode == 0:
-            self.erase(self.term_cursor, (self.width - 1, self.height - 1))
+            self.erase((*self.term_cursor, True), (self.width - 1, self.height - 1, True))
         if mode == 1:
-            self.erase((0, 0), self.term_cursor)
+            self.erase((0, 0, True), (*self.term_cursor, True))
         elif mode == 2:
             self.clear(cursor=self.term_cursor)
 
